@@ -420,6 +420,7 @@ func (s *UDPSessionRelay) recvFromServerConnRecvmmsg(ctx context.Context, lnc *u
 
 			select {
 			case entry.natConnSendCh <- queuedPacket:
+				verifhook.At("relay.recv.enqueued", s, csid)
 			default:
 				if ce := lnc.logger.Check(zap.DebugLevel, "Dropping packet due to full send channel"); ce != nil {
 					ce.Write(
